@@ -1,7 +1,357 @@
 /-
-C17 — property theorems (work in progress; see Proofs/C17_*.lean).
+C17 — a container's saved output is exactly what it left in its output directory.
+Property theorems about the model of `lib/crunchrun/copier.go` (Model/C17.lean). Proofs of the
+lemmas are in Proofs/C17_*.lean.
+
+Vocabulary (all defined in the model / proof files):
+ * `scan h cfg fuel`  — the plan (`cp.dirs`, `cp.files`, `cp.manifest`) or the error of `walkMount("", outputPath, …)`;
+   `copy` = `scan` followed by `runPlan` (`Mkdir`, `copyFile`, `MarshalManifest`).
+ * `Shows h cfg d s`  — the specification: the output path `d` shows the container path `s`
+   (root; entries of real directories that are not secret mounts / mount points; link targets that
+   land inside the output directory's mount).
+ * `Direct h cfg`     — every link that is taken into the output directory has a *canonical* target:
+   absolute targets are path-cleaned and no target passes through a symlinked directory. Then the
+   copier's textual path arithmetic agrees with what the host filesystem resolves (`namei`).
+   Without it the statements are false of the current code: findings F17a / F17b.
+ * `Visible h cfg src p rel node` — `rel` leads from the directory `p` through real directories that
+   are neither secret mounts nor mount points to the entry `node`.
 -/
-import ArvVerif.Model.C17
+import ArvVerif.Proofs.C17_Run
+set_option linter.unusedSimpArgs false
 namespace ArvVerif.C17
+
+/-! ## never non-termination -/
+
+theorem runPlan_total (h : Host) (p : Plan) : runPlan h p ≠ .fuel ∧ runPlan h p ≠ .unmodelled := by
+  unfold runPlan
+  constructor
+  · split
+    · simp
+    · split
+      · simp
+      · split <;> simp
+  · split
+    · simp
+    · split
+      · simp
+      · split <;> simp
+
+/-- **termination**: for a well-formed host tree and a supported configuration (the only `tmp`
+mount is the output directory, no writable collection mount, no mount above the output path), `Copy`
+ends — with a collection or an error — within an explicit number of nested calls, however the
+links are arranged (cycles included). -/
+theorem C17_terminates (h : Host) (cfg : Cfg) (wf : HostWF h) (hs : supported cfg = true)
+    (fuel : Nat) (hf : fuelBound h cfg ≤ fuel) :
+    (∃ t, copy h cfg fuel = .ok t) ∨ (∃ e, copy h cfg fuel = .err e) := by
+  have h1 := scan_ne_fuel h cfg wf hs fuel hf
+  have h2 : scan h cfg fuel ≠ .unmodelled := walk_ne_unmodelled h cfg hs _ _ _
+  unfold copy
+  cases hsc : scan h cfg fuel with
+  | fuel => exact absurd hsc h1
+  | unmodelled => exact absurd hsc h2
+  | err e => exact Or.inr ⟨e, rfl⟩
+  | ok p =>
+    simp only [Res.bind]
+    cases hr : runPlan h p with
+    | fuel => exact absurd hr (runPlan_total h p).1
+    | unmodelled => exact absurd hr (runPlan_total h p).2
+    | err e => exact Or.inr ⟨e, rfl⟩
+    | ok t => exact Or.inl ⟨t, rfl⟩
+
+theorem copy_err_of_scan_not_ok (h : Host) (cfg : Cfg) (wf : HostWF h) (hs : supported cfg = true)
+    (fuel : Nat) (hf : fuelBound h cfg ≤ fuel) (hno : ∀ plan, scan h cfg fuel ≠ .ok plan) :
+    ∃ e, copy h cfg fuel = .err e := by
+  have h1 := scan_ne_fuel h cfg wf hs fuel hf
+  have h2 : scan h cfg fuel ≠ .unmodelled := walk_ne_unmodelled h cfg hs _ _ _
+  unfold copy
+  cases hsc : scan h cfg fuel with
+  | fuel => exact absurd hsc h1
+  | unmodelled => exact absurd hsc h2
+  | err e => exact ⟨e, rfl⟩
+  | ok p => exact absurd hsc (hno p)
+
+/-! ## special files -/
+
+/-- **special files**: a device, FIFO or socket that is visible below the output directory makes
+`Copy` return an error. -/
+theorem C17_special_files_fail (h : Host) (cfg : Cfg) (wf : HostWF h) (hs : supported cfg = true)
+    (hx : InOut cfg cfg.ctrOut) (hreal : OutDirReal h cfg) (rel : Path) (hne : rel ≠ [])
+    (hv : Visible h cfg cfg.ctrOut cfg.hostOut rel .special)
+    (fuel : Nat) (hf : fuelBound h cfg ≤ fuel) : ∃ e, copy h cfg fuel = .err e :=
+  copy_err_of_scan_not_ok h cfg wf hs fuel hf (special_fails h cfg wf hx hreal rel hne hv fuel)
+
+/-! ## bad links -/
+
+/-- **links that leave every mount**: a visible link whose target (as the copier computes it) lies
+in no mount and under no secret mount makes `Copy` return an error — it is not skipped. -/
+theorem C17_bad_links_fail (h : Host) (cfg : Cfg) (wf : HostWF h) (hs : supported cfg = true)
+    (hx : InOut cfg cfg.ctrOut) (hreal : OutDirReal h cfg) (rel : Path) (hne : rel ≠ [])
+    (abs : Bool) (t : Path) (hv : Visible h cfg cfg.ctrOut cfg.hostOut rel (.link abs t))
+    (hout : Outside cfg (linkTarget (cfg.ctrOut ++ rel) abs t))
+    (fuel : Nat) (hf : fuelBound h cfg ≤ fuel) : ∃ e, copy h cfg fuel = .err e :=
+  copy_err_of_scan_not_ok h cfg wf hs fuel hf (link_outside_fails h cfg wf hx hreal rel hne abs t hv hout fuel)
+
+/-- **cycles**: a visible link (at `out/rel0/rel`) that leads back to itself (`rel = []`) or to a
+directory above it (`out/rel0`) makes `Copy` return an error: it is neither followed forever
+(`C17_terminates`) nor dropped. -/
+theorem C17_bad_links_fail_cycle (h : Host) (cfg : Cfg) (wf : HostWF h) (hs : supported cfg = true)
+    (hx : InOut cfg cfg.ctrOut) (hreal : OutDirReal h cfg) (rel0 rel : Path) (abs : Bool) (t : Path)
+    (hxin : InOut cfg (cfg.ctrOut ++ rel0))
+    (h0 : rel0 = [] ∨ Visible h cfg cfg.ctrOut cfg.hostOut rel0 (if rel = [] then .link abs t else .dir))
+    (hrel : rel = [] ∨ Visible h cfg (cfg.ctrOut ++ rel0) (cfg.hostOut ++ rel0) rel (.link abs t))
+    (hnot : ¬ (rel0 = [] ∧ rel = []))
+    (hback : linkTarget (cfg.ctrOut ++ rel0 ++ rel) abs t = cfg.ctrOut ++ rel0)
+    (fuel : Nat) (hf : fuelBound h cfg ≤ fuel) : ∃ e, copy h cfg fuel = .err e :=
+  copy_err_of_scan_not_ok h cfg wf hs fuel hf
+    (cycle_fails h cfg wf hx hreal rel0 rel abs t hxin h0 hrel hnot hback fuel)
+
+/-- a link met when no follow is left is an error (`errTooManySymlinks`): chains longer than
+`limitFollowSymlinks + 1` cannot be followed -/
+theorem C17_bad_links_fail_budget (h : Host) (cfg : Cfg) (dest src p : Path) (fuel : Nat) (inc : Bool)
+    (st st' : Plan) (abs : Bool) (t : Path)
+    (hd : namei h [] (hostPath cfg src) 0 = .found p (.link abs t)) :
+    walk h cfg fuel (.host dest src 0 inc) st ≠ .ok st' := by
+  intro hw
+  cases fuel with
+  | zero => rw [walk] at hw; cases hw
+  | succ fuel =>
+    rw [walk] at hw
+    obtain ⟨a, _, hr⟩ := bind_eq_ok _ _ _ hw
+    have hnm : namei h [] (cfg.hostOut ++ src.drop cfg.ctrOut.length) 0 = .found p (.link abs t) := hd
+    rw [hnm] at hr
+    simp at hr
+
+/-! ## secrets -/
+
+/-- the full statement: no file planned by a successful scan is read from (below) the host file of a
+secret mount — for *every* host tree -/
+def C17_secrets_absent_Full : Prop :=
+  ∀ (h : Host) (cfg : Cfg) (fuel : Nat) (plan : Plan), HostWF h → CfgWF h cfg →
+    h.get cfg.hostOut = some .dir → supported cfg = true → scan h cfg fuel = .ok plan →
+    ∀ f ∈ plan.files, ∀ p, f.2 = some p → ¬ SecretHost cfg p
+
+/-- **secrets** (partial): under `Direct` the statement holds. -/
+theorem C17_secrets_absent_partial (h : Host) (cfg : Cfg) (hwf : HostWF h) (wf : CfgWF h cfg)
+    (hout : h.get cfg.hostOut = some .dir) (hs : supported cfg = true) (hdirect : Direct h cfg)
+    (fuel : Nat) (plan : Plan) (hscan : scan h cfg fuel = .ok plan) :
+    ∀ f ∈ plan.files, ∀ p, f.2 = some p → ¬ SecretHost cfg p :=
+  scan_no_secret h cfg hwf wf hout hs hdirect fuel plan hscan
+
+/-- what the output path `d` shows never lies at or below a secret mount -/
+theorem C17_secrets_absent_spec (h : Host) (cfg : Cfg) (wf : CfgWF h cfg) (d s : Path)
+    (hsh : Shows h cfg d s) : ∀ x ∈ cfg.secrets, x.isPrefixOf s = false :=
+  shows_noSecret h cfg wf d s hsh
+
+/-! ### witnesses of the findings -/
+
+/-- F17a: output dir with the secret mount `/out/s`, a directory `d` and `l -> /out/d/../s` -/
+def wA : Host := [(["o"], .dir), (["o", "s"], .file [115]), (["o", "d"], .dir),
+                  (["o", "l"], .link true ["out", "d", "..", "s"])]
+/-- F17b: secret mount `/out/d/s`, `l1 -> d`, `l4 -> l1/s` -/
+def wB : Host := [(["o"], .dir), (["o", "d"], .dir), (["o", "d", "s"], .file [115]),
+                  (["o", "l1"], .link false ["d"]), (["o", "l4"], .link false ["l1", "s"])]
+def wCfgA : Cfg := { ctrOut := ["out"], hostOut := ["o"], mounts := [(["out"], { kind := "tmp" })],
+                     secrets := [["out", "s"]] }
+def wCfgB : Cfg := { wCfgA with secrets := [["out", "d", "s"]] }
+
+theorem wA_scan : scan wA wCfgA 50 =
+    .ok { dirs := [["d"]], files := [(["d", ".keep"], none), (["l"], some ["o", "s"])], frags := [] } := by
+  simp [scan, walk, namei, wA, wCfgA, Host.get, srcMount, underSecret, rootLen, limitFollowSymlinks, Res.bind,
+    Host.children, sortNames, insertName, skipMount, Cfg.mount, copyRegular, Plan.addDir, Plan.addKeep, Plan.addFile]
+
+theorem wB_n1 : namei wB [] ["o"] 0 = .found ["o"] .dir := by simp [namei, wB, Host.get]
+theorem wB_n2 : namei wB [] ["o", "d"] 0 = .found ["o", "d"] .dir := by simp [namei, wB, Host.get]
+theorem wB_n3 : namei wB [] ["o", "l1"] 0 = .found ["o", "l1"] (.link false ["d"]) := by
+  simp [namei, wB, Host.get]
+theorem wB_n4 : namei wB [] ["o", "l4"] 0 = .found ["o", "l4"] (.link false ["l1", "s"]) := by
+  simp [namei, wB, Host.get]
+theorem wB_n5 : namei wB [] ["o", "l1", "s"] 0 = .found ["o", "d", "s"] (.file [115]) := by
+  simp [namei, wB, Host.get, maxHostLinks]
+theorem wB_c1 : wB.children ["o"] = ["d", "l1", "l4"] := by decide
+theorem wB_c2 : wB.children ["o", "d"] = ["s"] := by decide
+
+theorem wB_scan : scan wB wCfgB 50 =
+    .ok { dirs := [["d"], ["l1"]], files := [(["l4"], some ["o", "d", "s"])], frags := [] } := by
+  have e1 : sortNames ["d", "l1", "l4"] = ["d", "l1", "l4"] := by decide
+  have e2 : sortNames ["s"] = ["s"] := by decide
+  simp [scan, walk, wCfgB, wCfgA, srcMount, underSecret, rootLen, limitFollowSymlinks, Res.bind,
+    wB_n1, wB_n2, wB_n3, wB_n4, wB_n5, wB_c1, wB_c2, e1, e2,
+    skipMount, Cfg.mount, copyRegular, Plan.addDir, Plan.addKeep, Plan.addFile, cleanAbs, cleanAbsStep]
+
+theorem wA_wf : HostWF wA := ⟨by decide, by decide, by decide⟩
+theorem wB_wf : HostWF wB := ⟨by decide, by decide, by decide⟩
+
+theorem wA_cfg : CfgWF wA wCfgA :=
+  ⟨by decide, by simp [OutDirReal, namei, wA, wCfgA, Host.get], by decide⟩
+theorem wB_cfg : CfgWF wB wCfgB :=
+  ⟨by decide, by simp [OutDirReal, namei, wB, wCfgB, wCfgA, Host.get], by decide⟩
+
+/-- the full statement is false of the current code: F17a (absolute target that is not cleaned) -/
+theorem C17_secrets_absent_full_fails : ¬ C17_secrets_absent_Full := by
+  intro hfull
+  have := hfull wA wCfgA 50 _ wA_wf wA_cfg (by decide) (by decide) wA_scan
+    (["l"], some ["o", "s"]) (by simp) ["o", "s"] rfl
+  exact this ⟨["out", "s"], by decide, by decide, by decide⟩
+
+/-- … and F17b (relative targets only: a path through a symlinked directory) -/
+theorem C17_secrets_absent_full_fails_indirect : ¬ C17_secrets_absent_Full := by
+  intro hfull
+  have := hfull wB wCfgB 50 _ wB_wf wB_cfg (by decide) (by decide) wB_scan
+    (["l4"], some ["o", "d", "s"]) (by simp) ["o", "d", "s"] rfl
+  exact this ⟨["out", "d", "s"], by decide, by decide, by decide⟩
+
+/-! ## the saved output equals the tree -/
+
+/-- Conclusion of the equality theorem for a plan and the tree loaded from its manifest fragments:
+`Copy` succeeds, and the saved collection `tree`
+ (1) has every regular file that `Shows` derives, with the bytes of the host file;
+ (2) has every directory that `Shows` derives, and `dir/.keep` (empty) for those without entries;
+ (3) has nothing else: a file is either planned-and-justified by `Shows` (regular file with its
+     bytes, or the empty `.keep` of an empty directory) or comes from a mounted collection (`t0`);
+     a directory is justified by `Shows` or comes from a mounted collection. -/
+structure OutputEqualsTree (h : Host) (cfg : Cfg) (fuel : Nat) (t0 : Tree) : Prop where
+  ok : ∃ tree, copy h cfg fuel = .ok tree ∧
+    (∀ d s c, Shows h cfg d s → nodeAt h cfg s = some (.file c) → tree.get d = some (.file c)) ∧
+    (∀ d s, Shows h cfg d s → nodeAt h cfg s = some .dir → d ≠ [] →
+      tree.get d = some .dir ∧
+      (h.children (hostPath cfg s) = [] → tree.get (d ++ [".keep"]) = some (.file []))) ∧
+    (∀ x c, tree.get x = some (.file c) →
+      (∃ s, Shows h cfg x s ∧ nodeAt h cfg s = some (.file c)) ∨
+      (c = [] ∧ ∃ d s, x = d ++ [".keep"] ∧ Shows h cfg d s ∧ nodeAt h cfg s = some .dir ∧
+        h.children (hostPath cfg s) = []) ∨
+      t0.get x = some (.file c)) ∧
+    (∀ x, tree.get x = some .dir →
+      (∃ s, Shows h cfg x s ∧ nodeAt h cfg s = some .dir) ∨ t0.get x = some .dir)
+
+/-- **output equals tree** (partial): for a well-formed host tree and configuration in which every
+link has a canonical target (`Direct`) and mounted content does not claim a path that host content
+claims (`NoCollide`): if the scan succeeds then `Copy` succeeds and the saved collection is
+exactly what `Shows` derives from the output directory, plus the content of the mounted collections. -/
+theorem C17_output_equals_tree_partial (h : Host) (cfg : Cfg) (hwf : HostWF h) (wf : CfgWF h cfg)
+    (hout : h.get cfg.hostOut = some .dir) (hs : supported cfg = true) (hx : InOut cfg cfg.ctrOut)
+    (hdirect : Direct h cfg) (fuel : Nat) (plan : Plan) (hscan : scan h cfg fuel = .ok plan)
+    (t0 : Tree) (hload : loadFrags [] plan.frags = some t0) (hnc : NoCollide t0 plan) :
+    OutputEqualsTree h cfg fuel t0 := by
+  have hsh := scan_shape h cfg hwf hs wf.real fuel plan hscan
+  have hj := scan_sound h cfg hwf wf hout hs hdirect fuel plan hscan
+  obtain ⟨tree, hrun, hget⟩ := runPlan_spec h plan hsh t0 hload hnc
+  refine ⟨tree, by unfold copy; rw [hscan]; exact hrun, ?_, ?_, ?_, ?_⟩
+  · intro d s c hshow hnode
+    have hmem := (scan_complete h cfg hwf wf hout hdirect hx fuel plan hscan d s hshow).1 c hnode
+    rw [hget, planned_of_mem h plan.files hsh.nodupFiles _ hmem]
+    simp only [srcContent]
+    have : h.get (hostPath cfg s) = some (.file c) := hnode
+    rw [this]
+  · intro d s hshow hnode hne
+    obtain ⟨hd, hk⟩ := (scan_complete h cfg hwf wf hout hdirect hx fuel plan hscan d s hshow).2 hnode hne
+    constructor
+    · rw [hget, planned_none_of_not_mem h plan.files d (hsh.disjoint d hd)]
+      simp [hd]
+    · intro hempty
+      have hmem := hk hempty
+      rw [hget, planned_of_mem h plan.files hsh.nodupFiles _ hmem]
+      rfl
+  · intro x c hx
+    rw [hget] at hx
+    cases hp : planned h plan.files x with
+    | some c' =>
+      rw [hp] at hx
+      simp only [Option.some.injEq, Ent.file.injEq] at hx
+      subst hx
+      obtain ⟨f, hf, hf1, hf2⟩ := planned_some h plan.files x c' hp
+      have hfj := hj.files f hf
+      unfold FileJust at hfj
+      cases hsrc : f.2 with
+      | some p =>
+        rw [hsrc] at hfj
+        obtain ⟨s, c2, hshow, hps, hgp⟩ := hfj
+        left
+        refine ⟨s, by rw [← hf1]; exact hshow, ?_⟩
+        rw [hsrc] at hf2
+        simp only [srcContent, hgp] at hf2
+        unfold nodeAt
+        rw [← hps, hgp, hf2]
+      | none =>
+        rw [hsrc] at hfj
+        obtain ⟨d, s, hfd, hne, hshow, hnode, hempty⟩ := hfj
+        right; left
+        rw [hsrc] at hf2
+        exact ⟨by simpa [srcContent] using hf2.symm, d, s, by rw [← hf1]; exact hfd, hshow, hnode, hempty⟩
+    | none =>
+      rw [hp] at hx
+      simp only at hx
+      split at hx
+      · cases hx
+      · right; right; exact hx
+  · intro x hx
+    rw [hget] at hx
+    cases hp : planned h plan.files x with
+    | some c' => rw [hp] at hx; cases hx
+    | none =>
+      rw [hp] at hx
+      simp only at hx
+      split at hx
+      · rename_i hmem
+        left
+        obtain ⟨_, s, hshow, hnode⟩ := hj.dirs x hmem
+        exact ⟨s, hshow, hnode⟩
+      · right; exact hx
+
+/-- the full statement: the same for every host tree, without `Direct` -/
+def C17_output_equals_tree_Full : Prop :=
+  ∀ (h : Host) (cfg : Cfg) (fuel : Nat) (plan : Plan) (t0 : Tree), HostWF h → CfgWF h cfg →
+    h.get cfg.hostOut = some .dir → supported cfg = true → InOut cfg cfg.ctrOut →
+    scan h cfg fuel = .ok plan → loadFrags [] plan.frags = some t0 → NoCollide t0 plan →
+    OutputEqualsTree h cfg fuel t0
+
+theorem wA_copy : copy wA wCfgA 50 =
+    .ok [(["d"], .dir), (["d", ".keep"], .file []), (["l"], .file [115])] := by
+  unfold copy
+  rw [wA_scan]
+  simp [Res.bind, runPlan, loadFrags, mkdirs, mkdir, copyFiles, copyFile, Tree.get, Tree.set, srcContent, wA, Host.get]
+
+/-- the full statement is false of the current code (F17a): the saved collection of witness `wA` has
+the file `/l` with the secret's bytes, which nothing in the output directory justifies -/
+theorem C17_output_equals_tree_full_fails : ¬ C17_output_equals_tree_Full := by
+  intro hfull
+  have hin : InOut wCfgA wCfgA.ctrOut := by
+    refine ⟨by decide, { kind := "tmp" }, by decide, rfl, rfl⟩
+  obtain ⟨tree, hc, _, _, h3, _⟩ := (hfull wA wCfgA 50 _ [] wA_wf wA_cfg (by decide) (by decide) hin wA_scan
+    (by simp [loadFrags]) ⟨by simp [Tree.get], by simp [Tree.get]⟩).ok
+  rw [wA_copy] at hc
+  cases hc
+  have hget : Tree.get [(["d"], Ent.dir), (["d", ".keep"], Ent.file []), (["l"], Ent.file [115])] ["l"]
+      = some (.file [115]) := by decide
+  rcases h3 ["l"] [115] hget with ⟨s, hshow, hnode⟩ | ⟨hc0, _⟩ | ht0
+  · -- the only host file with these bytes is the secret's, and `Shows` never shows a secret
+    have hpre := shows_pre wA wCfgA _ s hshow
+    have hns := shows_noSecret wA wCfgA wA_cfg _ s hshow ["out", "s"] (by decide)
+    -- nodeAt s = file [115] forces hostPath s = ["o", "s"], i.e. s = ["out", "s"]
+    have hs : s = ["out", "s"] := by
+      have hg : wA.get (hostPath wCfgA s) = some (.file [115]) := hnode
+      have hp : hostPath wCfgA s = ["o", "s"] := by
+        unfold Host.get at hg
+        split at hg
+        · cases hg
+        · simp only [wA, List.find?_cons] at hg
+          generalize hostPath wCfgA s = q at hg
+          by_cases h1 : (["o"] : Path) = q
+          · simp [h1.symm] at hg
+          · by_cases h2 : (["o", "s"] : Path) = q
+            · exact h2.symm
+            · by_cases h3 : (["o", "d"] : Path) = q
+              · simp [h1, h2, h3.symm] at hg
+              · by_cases h4 : (["o", "l"] : Path) = q
+                · simp [h1, h2, h3, h4.symm] at hg
+                · simp [h1, h2, h3, h4] at hg
+      have := prefix_append_drop _ _ hpre
+      unfold hostPath at hp
+      simp only [wCfgA, List.cons_append, List.nil_append, List.length_cons, List.length_nil,
+        List.cons.injEq, true_and] at hp this
+      rw [← this, hp]
+    rw [hs] at hns
+    exact absurd hns (by decide)
+  · cases hc0
+  · simp [Tree.get] at ht0
 
 end ArvVerif.C17
